@@ -1,5 +1,5 @@
 """C19 - Limiter bounds concurrency, runs every task once and survives panics."""
-import os, subprocess, json, vlib
+import os, re, subprocess, json, vlib
 from vlib import GOENV, Inconclusive, log, read_json
 
 def run(ctx):
@@ -15,7 +15,12 @@ def run(ctx):
     tf = os.path.join(outd, "limiter_traces.ndjson")
     if rr.returncode != 0:
         cur = open(os.path.join(outd, "limiter_current.json")).read() if os.path.exists(os.path.join(outd, "limiter_current.json")) else "?"
-        if "panic:" in rr.stderr and "goroutine" in rr.stderr:
+        # the goroutine that brought the process down (first "[running]" block): did the panic pass through the library?
+        blk = ""
+        mm = re.search(r"goroutine \d+ [^\n]*\[running[^\n]*\n(.*?)(\n\n|$)", rr.stderr, re.S)
+        if mm:
+            blk = mm.group(1)
+        if ("panic:" in rr.stderr or "fatal error: panic while printing panic value" in rr.stderr) and "goroutine" in rr.stderr and ("golib/goz." in blk or "panic:" in rr.stderr):
             ctx.violation("Limiter: the process was terminated by a panic (a panicking function must not kill it; limits below 1 fall back to 3): %s" % rr.stderr[:300],
                           {"component": "LimiterCrash", "scenario": cur, "stderr": rr.stderr[:3000]}, key="Limiter/crash")
             return
